@@ -236,7 +236,7 @@ SUBCHECKS = [
         "maps",
         oracle,
         strategy=strat,
-        budget={"quick": 200, "thorough": 5000},
+        budget={"quick": 400, "thorough": 5000},
         rule="generated parts (0-n time/key signatures, clefs on 1-3 staves incl. staves without clef and no clef at all, irregular measures, pickups, first element late or missing, notated/musical beat mode); six maps queried at every integer position as scalar and array; non-trivial = an element changes where no note starts or a query lies before the first element of its kind",
         floors={"single-late-time-signature": 0.02, "no-clef-at-all": 0.03, "staff-without-clef": 0.03, "pickup": 0.05, "measure-numbered-0": 0.1},
     ),
